@@ -51,6 +51,27 @@ pub fn tool_main(args: &[String]) -> i32 {
             eprintln!("outcome: {:?} steps {}", r.outcome, r.steps);
             0
         }
+        "fragment-rate" => {
+            // how many generated programs does the static fragment checker accept? (it should
+            // accept practically all of them: they are inside the fragment by construction)
+            let prof = profile_by_name(args.get(1).map(|s| s.as_str()).unwrap_or("full"));
+            let n: u64 = args.get(2).and_then(|s| s.parse().ok()).unwrap_or(5000);
+            let mut ok = 0;
+            let mut shown = 0;
+            for i in 0..n {
+                let tape = random_tape(mix(i + 99), 500);
+                let mut t = Tape::new(&tape);
+                let g = generate(&mut t, &prof);
+                if crate::fragment::check(&g.prog) {
+                    ok += 1;
+                } else if shown < 3 {
+                    shown += 1;
+                    println!("REJECTED:\n{}", crate::render::pretty(&g.prog));
+                }
+            }
+            println!("{} of {} accepted", ok, n);
+            0
+        }
         "c13-count" => {
             println!("{}", crate::props::c13::count_space(std::env::var("LIM").ok().and_then(|s| s.parse().ok()).unwrap_or(1_000_000)));
             0
